@@ -201,6 +201,18 @@ def GridSpec.webTiles (fl : Rnd) (P : Rat) (zoom : Int) (npix : Int) : Res GridS
   let y := P
   GridSpec.fromSampleTile fl (boxBounds x (fl (y - tsz)) (fl (x + tsz)) y) npix npix 0 0 false true
 
+/-- `GridSpec.idx_bounds(bounds)` including its guard `assert self.crs == bounds.crs`; `sameCrs` is the
+    outcome of that CRS comparison (CRS equality itself is property C01/C19, not modelled here).
+    `tiles(bounds)` goes through the same guard. -/
+def GridSpec.idxBoundsChecked (fl : Rnd) (tol : Rat) (g : GridSpec) (sameCrs : Bool) (q : BBox) :
+    Res (Int × Int × Int × Int) :=
+  if sameCrs then .ok (g.idxBounds fl tol q) else .error .assertion
+
+/-- `list(GridSpec.tiles(bounds))` including the CRS guard of `idx_bounds` -/
+def GridSpec.tilesChecked (fl : Rnd) (tol : Rat) (g : GridSpec) (sameCrs : Bool) (q : BBox) :
+    Res (List (Int × Int)) :=
+  if sameCrs then .ok (g.tiles fl tol q) else .error .assertion
+
 /-! ### the caller-supplied `geobox_cache` (state carried across queries) -/
 
 /-- `geobox_cache`: a dict `tile_index → GeoBox`, newest entry first -/
